@@ -174,7 +174,11 @@ class K:
                 return f"(F.sqrt {self.nexpr(a[0])})"
             if f == "abs":
                 return f"(absv {self.nexpr(a[0])})"
+            if f in ("log", "sqrt", "abs", "round", "float64") and (len(a) != 1 or e.keywords):
+                raise Unsupported(f"{f}() with {len(a)} arguments / keywords")
             if f == "min":
+                if len(a) != 2 or e.keywords:
+                    raise Unsupported(f"min() with {len(a)} arguments")
                 return f"(minv {self.nexpr(a[0])} {self.nexpr(a[1])})"
             if f == "round":
                 return f"(rnd {self.nexpr(a[0])})"
@@ -235,6 +239,8 @@ class K:
         if isinstance(v, ast.Call) and isinstance(v.func, ast.Attribute) and v.func.attr == "copy":
             return self.typeof(v.func.value), v.func.value.id
         if isinstance(v, ast.Call) and isinstance(v.func, ast.Attribute) and v.func.attr == "zeros":
+            if len(v.args) != 1 or any(not (kw.arg == "dtype" and ast.unparse(kw.value).split(".")[-1].strip("'\"") == "float64") for kw in v.keywords):
+                raise Unsupported("np.zeros with a dtype other than float64 / extra arguments: " + ast.unparse(v))
             a = v.args[0]
             size = f"{a.value.id}.size" if (isinstance(a, ast.Attribute) and a.attr == "shape") else f"({self.iexpr(a)}).toNat"
             return "arrnum", f"Array.replicate {size} (nat 0)"
@@ -244,6 +250,10 @@ class K:
         if isinstance(v, ast.Lambda):
             return "lambda", None
         if isinstance(v, ast.Subscript) and isinstance(v.slice, ast.Slice) and v.slice.lower is None and v.slice.upper is None and isinstance(v.value, ast.Name):
+            # a[:] is a VIEW in NumPy; translating it as the array's value is right only on the right-hand side of a slice STORE
+            # (`out[:] = y[:]`), which copies.  Binding a name to it (`temp = template[:]`) aliases the two arrays: refused.
+            if not getattr(self, "_rhs_of_slice_store", False):
+                raise Unsupported("a name bound to a view `a[:]` (aliasing): " + ast.unparse(v))
             return self.ty[v.value.id], v.value.id          # a[:] : the whole array
         t = self.typeof(v)
         if t == "int":
@@ -251,6 +261,21 @@ class K:
         if t == "num":
             return t, self.nexpr(v)
         raise Unsupported("value " + ast.dump(v)[:80])
+
+    def check_signature(self):
+        """the `def` line must be the one this translator was configured for: parameter names in order, no defaults other than the
+        declared ones (a reordered or renamed parameter would otherwise leave the generated program unchanged)"""
+        a = self.fn.args
+        if a.vararg or a.kwarg or a.kwonlyargs or a.posonlyargs:
+            raise Unsupported("signature: *args / **kwargs / keyword-only parameters")
+        names = [x.arg for x in a.args]
+        want = [n for n, _ in self.cfg["params"]] + list(self.cfg.get("const_params", {}))     # const_params: folded at their default
+        if names != want:
+            raise Unsupported(f"signature changed: def {self.fn.name}({', '.join(names)}) but the translator is configured for ({', '.join(want)})")
+        defaults = {n.arg: ast.unparse(d) for n, d in zip(a.args[len(a.args) - len(a.defaults):], a.defaults)}
+        declared = {k: repr(v) for k, v in {**self.cfg.get("defaults", {}), **self.cfg.get("const_params", {})}.items()}
+        if defaults != declared:
+            raise Unsupported(f"signature: default values {defaults} (configured: {declared})")
 
     def stmt(self, s, ind):
         if isinstance(s, ast.Expr) and isinstance(s.value, ast.Constant):
@@ -279,7 +304,11 @@ class K:
             if isinstance(t, ast.Subscript) and isinstance(t.value, ast.Name):
                 arr = t.value.id
                 if isinstance(t.slice, ast.Slice):
-                    ty, term = self.value_term(v)
+                    self._rhs_of_slice_store = True
+                    try:
+                        ty, term = self.value_term(v)
+                    finally:
+                        self._rhs_of_slice_store = False
                     if ty == "arrnum":
                         return self.emit(ind, f"{arr} := {term}")
                     return self.emit(ind, f"{arr} := {arr}.map (fun _ => {term})")
@@ -359,6 +388,8 @@ class K:
             return self.emit(ind, "break")
         if isinstance(s, ast.Expr) and isinstance(s.value, ast.Call) and isinstance(s.value.func, ast.Attribute) and s.value.func.attr == "round":
             a = s.value.args      # np.round(z, 0, out)
+            if len(a) != 3 or s.value.keywords or not (isinstance(a[1], ast.Constant) and a[1].value == 0 and not isinstance(a[1].value, bool)):
+                raise Unsupported("np.round other than np.round(z, 0, out): " + ast.unparse(s.value))
             return self.emit(ind, f"{a[2].id} := {a[0].id}.map rnd")
         raise Unsupported(type(s).__name__ + ": " + ast.dump(s)[:100])
 
@@ -418,6 +449,7 @@ class K:
             self.emit(1, f"let mut {nm} : {self.LEAN_TY[hint]} := {init}")
 
     def run(self):
+        self.check_signature()
         for nm, t in self.cfg["params"]:
             if t in ("arrnum", "arrint") and nm in {"out", "lopt"}:
                 self.emit(1, f"let mut {nm} : {self.LEAN_TY[t]} := {nm}")
@@ -652,7 +684,7 @@ def main(kernels=None, tool="py2lean_num"):
         try:
             src = (REPO / cfg["file"]).read_text()
             mod = ast.parse(src)
-            fn = next(n for n in ast.walk(mod) if isinstance(n, ast.FunctionDef) and n.name == cfg["func"])
+            fn = [n for n in ast.walk(mod) if isinstance(n, ast.FunctionDef) and n.name == cfg["func"]][-1]      # a later def shadows an earlier one
             k = (cfg.get("translator") or K)(cfg, fn)
             body = k.run()
             sig = " ".join(f"({n} : {K.LEAN_TY[t]})" for n, t in cfg["params"] if t != "skip")
